@@ -22,13 +22,15 @@ Log == ndJsonDeserialize(IOEnv.TRACE_FILE)
 VARIABLE l          \* next event to consume
 tvars == << vars, l >>
 
-RestCase == [ entry |-> "none", defect |-> NoDefect, pos |-> "root", rp |-> "none", nth |-> 1, slot |-> "param" ]
+RestCase == [ entry |-> "none", defect |-> NoDefect, pos |-> "root", rp |-> "none", nth |-> 1, slot |-> "param",
+              rept |-> 1 ]
 AtRest   == c = RestCase /\ pc = "rest" /\ obs = ObsInit /\ flight = NoExc /\ reach = 0 /\ calls = 0
+            /\ refc = "none"
 
 TInit == l = 1 /\ AtRest
 
 CaseOf(e) == [ entry |-> e.entry, defect |-> << e.defect, e.var >>, pos |-> e.pos, rp |-> e.rp,
-               nth |-> e.nth, slot |-> e.slot ]
+               nth |-> e.nth, slot |-> e.slot, rept |-> e.rept ]
 
 OutOf(e) == [ kind |-> e.kind, cls |-> e.cls, uid |-> e.uid,
               intact |-> (e.tb_anchor /\ e.args_same /\ e.chain_same) ]
@@ -63,7 +65,7 @@ TBegin ==
         /\ PrintT(ToJson([ summary |-> [ id |-> e.id, returns |-> Len(rows),
                                          bad |-> Cardinality({ k \in DOMAIN rows : rows[k].clauses # {} }) ] ]))
         /\ \/ /\ c' = CaseOf(e) /\ pc' = "idle" /\ l' = l + 1                 \* try to follow
-              /\ UNCHANGED << obs, flight, reach, calls >>
+              /\ UNCHANGED << obs, flight, reach, calls, refc >>
            \/ /\ l' = e.next /\ UNCHANGED vars                                   \* abandon
 
 Matches(e, o, o2) ==
@@ -86,7 +88,7 @@ TEnd ==             \* the case's events are all consumed and the API is not ent
   /\ (IF l = Len(Log) + 1 THEN TRUE ELSE Log[l].ev = "Begin")
   /\ PrintT(ToJson([ followed |-> Log[l - 1].id ]))
   /\ c' = RestCase /\ pc' = "rest" /\ obs' = ObsInit /\ flight' = NoExc /\ reach' = 0 /\ calls' = 0
-  /\ l' = l
+  /\ refc' = "none" /\ l' = l
 
 TNext == TBegin \/ TStep \/ TEnd
 TSpec == TInit /\ [][TNext]_tvars
